@@ -229,6 +229,9 @@ func c07Default(c *cx) {
 		}
 	}
 	ownAttrLookups(c, id, func(x *eng.Fn) bool { return x == f })
+	idTypFromOwnAttributes(c, "C07.8")
+	fromBlankedOnlyForOwnBare(c, "C07.9")
+	attrCopyLoopsComplete(c, "C07.10")
 	for _, ce := range g.EdgesMatching("!eq(internal/attr.Own(*.Attr,\"from\")#1,\"\")") {
 		from := g.EdgeTarget(ce.E)
 		isParse := func(q eng.Point, nd ast.Node) bool { return f.ContainsCall(nd, "jid.Parse") != nil }
